@@ -38,6 +38,13 @@ Theorem C31_makeclusters_complete_refuted :
   exists (ge : geom) (cl : clus), clique ge cl /\ length cl = 2%nat /\ ~ In (canon cl) (enumerate ge 2) /\ ~ range_ok ge.
 Proof. exact makeclusters_box_refuted. Qed.
 
+(* REFUTED for transition-state clusters as constructed today: two geometrically different
+   clusters (same site set, same transition vector, pair at another place of the set) are equal. *)
+Theorem C31_ts_identity_refuted :
+  exists a b : clus, canon_ts a <> canon_ts b /\ ceq (Cluster false TS a) (Cluster false TS b) = true
+                     /\ ceq (Cluster true TS a) (Cluster true TS b) = false.
+Proof. exact ts_identity_refuted. Qed.
+
 (* cluster identity is geometric: the canonical form is a complete invariant of
    "same sites up to order and a common translation" *)
 Theorem C31_canonical_form_invariant :
@@ -71,33 +78,34 @@ Theorem C31_symmetry_checker_sound :
     allowed ge (p_site (act_site g p)) = allowed ge (p_site p).
 Proof. exact gop_isometry. Qed.
 
-(* Cluster value type: equality and hash are invariant under translation ... *)
+(* Cluster value type (tt = false: the constructor as it is; tt = true: with the transition sites
+   tagged, the proposed repair): equality and hash are invariant under translation ... *)
 Theorem C31_cluster_construct_translation :
-  forall (k : ckind) (T : vec) (l : clus), Cluster k (map (shift T) l) = Cluster k l.
+  forall (tt : bool) (k : ckind) (T : vec) (l : clus), Cluster tt k (map (shift T) l) = Cluster tt k l.
 Proof. exact Cluster_translate. Qed.
 
 Theorem C31_cluster_eq_translation :
-  forall (k : ckind) (T : vec) (l : clus), (nspecial k <= length l)%nat ->
-    ceq (Cluster k l) (Cluster k (map (shift T) l)) = true.
+  forall (tt : bool) (k : ckind) (T : vec) (l : clus), (nspecial k <= length l)%nat ->
+    ceq (Cluster tt k l) (Cluster tt k (map (shift T) l)) = true.
 Proof. exact Cluster_eq_translate. Qed.
 
 (* ... and under reordering of the non-special sites (sp = the vacancy / transition pair) *)
 Theorem C31_cluster_eq_reorder :
-  forall (k : ckind) (sp r r' : clus), length sp = nspecial k -> Permutation r r' ->
-    ceq (Cluster k (sp ++ r)) (Cluster k (sp ++ r')) = true.
+  forall (tt : bool) (k : ckind) (sp r r' : clus), length sp = nspecial k -> Permutation r r' ->
+    ceq (Cluster tt k (sp ++ r)) (Cluster tt k (sp ++ r')) = true.
 Proof. exact Cluster_eq_reorder. Qed.
 
 (* hash = fold of ANY commutative associative operation over ANY per-site hash *)
 Theorem C31_cluster_hash_translation :
-  forall (A : Type) (op : A -> A -> A) (e : A) (H : ckey -> A) (k : ckind) (T : vec) (l : clus),
-    chash A op e H (Cluster k (map (shift T) l)) = chash A op e H (Cluster k l).
+  forall (A : Type) (op : A -> A -> A) (e : A) (H : ckey -> A) (tt : bool) (k : ckind) (T : vec) (l : clus),
+    chash A op e H (Cluster tt k (map (shift T) l)) = chash A op e H (Cluster tt k l).
 Proof. exact Cluster_hash_translate. Qed.
 
 Theorem C31_cluster_hash_reorder :
   forall (A : Type) (op : A -> A -> A) (e : A) (H : ckey -> A),
     (forall x y, op x y = op y x) -> (forall x y z, op (op x y) z = op x (op y z)) ->
-    forall (k : ckind) (sp r r' : clus), length sp = nspecial k -> Permutation r r' ->
-      chash A op e H (Cluster k (sp ++ r)) = chash A op e H (Cluster k (sp ++ r')).
+    forall (tt : bool) (k : ckind) (sp r r' : clus), length sp = nspecial k -> Permutation r r' ->
+      chash A op e H (Cluster tt k (sp ++ r)) = chash A op e H (Cluster tt k (sp ++ r')).
 Proof. exact Cluster_hash_reorder. Qed.
 
 Goal True. idtac "ASSUMPTIONS-OF C31_enumeration_sound". Abort.
@@ -110,6 +118,8 @@ Goal True. idtac "ASSUMPTIONS-OF C31_range_certificate_exact_sound". Abort.
 Print Assumptions C31_range_certificate_exact_sound.
 Goal True. idtac "ASSUMPTIONS-OF C31_makeclusters_complete_refuted". Abort.
 Print Assumptions C31_makeclusters_complete_refuted.
+Goal True. idtac "ASSUMPTIONS-OF C31_ts_identity_refuted". Abort.
+Print Assumptions C31_ts_identity_refuted.
 Goal True. idtac "ASSUMPTIONS-OF C31_canonical_form_invariant". Abort.
 Print Assumptions C31_canonical_form_invariant.
 Goal True. idtac "ASSUMPTIONS-OF C31_canonical_form_complete". Abort.
